@@ -127,6 +127,13 @@ let () = iter_lines (fun line ->
       else print_endline ("cfg MISMATCH " ^ String.concat " " (List.map (fun (k, v) -> k ^ "=" ^ dec_of_z v) bad))
   | "seq" :: _ ->
       do_seq (String.sub line 3 (String.length line - 3))
+  | "tjinit" :: ty :: spec ->
+      (* tj3Init (+ tj3Destroy on success) with the handler found in the source *)
+      let t = (match ty with "c" -> ICompress | "d" -> IDecompress | _ -> ITransform) in
+      let (ok, h) = tjinit_src !cfg_ref t (oracle_of (String.concat " " spec)) in
+      let nm = List.length (List.filter (function EMalloc _ -> true | _ -> false) h.trace) in
+      Printf.printf "tjinit ok=%d n=%d live=%d badfree=%s hd=%d\n" (if ok then 1 else 0) nm (List.length h.live) (dec_of_z h.badfree)
+        (if tjinit_handler_destroys then 1 else 0)
   | [ "pix"; w; h; lim ] ->
       print_endline (if pixels_rejected_src (z_of_dec w) (z_of_dec h) (z_of_dec lim) then "pix reject" else "pix accept")
   | [ "scan"; n; lim ] ->
